@@ -204,26 +204,32 @@ for n in range(0, %d):
             got = 'exception %%r' %% (e,)
         if got != want and len(bad) < 5:
             bad.append({'option_string': s, 'got': repr(got), 'want': repr(want)})
-# Slice against Python slicing, Sample against its statement, exhaustively for small n
-for n in range(0, 9):
-    for start in [None] + list(range(-10, 11)):
-        for stop in [None] + list(range(-10, 11)):
-            for step in [None, 1, 2, 3, 7]:
+# Slice against Python slicing, Sample against its statement, exhaustively for small n.  One selector object is applied to
+# sequences of several lengths, shorter and longer ones in turn, as the converters do with the one --frame-slice selector they
+# are given: its answers must not depend on what it was asked before
+LENGTHS = list(range(0, 9)) + [6, 3, 8, 0, 5, 2, 7]
+for start in [None] + list(range(-10, 11)):
+    for stop in [None] + list(range(-10, 11)):
+        for step in [None, 1, 2, 3, 7]:
+            sl = Slice.Slice(start, stop, step)
+            for n in LENGTHS:
                 cases += 1
-                sl = Slice.Slice(start, stop, step)
                 want = list(range(n))[start:stop:step]
                 if sl.indices(n) != want or list(sl.gen_indices(n)) != want or sl.count(n) != len(want) or (want and sl.first(n) != want[0]):
                     if len(bad) < 5:
-                        bad.append({'slice': [start, stop, step], 'n': n})
-    for N in range(1, 12):
+                        bad.append({'slice': [start, stop, step], 'n': n, 'lengths_asked_in_this_order': LENGTHS})
+                    break
+for N in range(1, 12):
+    sm = Slice.Sample(N)
+    for n in LENGTHS:
         cases += 1
-        sm = Slice.Sample(N)
         idx = sm.indices(n)
         gaps = [b - a for a, b in zip(idx, idx[1:])]
         if len(idx) != min(N, n) or (idx and idx[0] != 0) or any(g <= 0 for g in gaps) or (gaps and max(gaps) - min(gaps) > 1) \
                 or sm.count(n) != len(idx) or list(sm.gen_indices(n)) != idx or any(i >= n for i in idx):
             if len(bad) < 5:
                 bad.append({'sample': N, 'n': n, 'indices': idx})
+            break
 print(json.dumps({'cases': cases, 'bad': bad}))
 if bad:
     sys.exit(1)
